@@ -20,7 +20,7 @@ RULE = ("cases = (type expression, column position first/middle/last, following 
         "'f: T') enumerated exhaustively to depth 2 and sampled to depth 3 (quick) / 5 (thorough), every inner comma with/without a "
         "blank, brackets glued or spaced, constructor names upper/lower case. Non-trivial = the type has a size, a suffix, two "
         "words or brackets (all cases); distinct = distinct (DDL, mode)."
-        " Added after seeded defects: size x array-suffix product, zero sizes, the type placed inside hive PARTITIONED BY (...) lists, the column under test named with delimiters (\"x\", `x`, [x]), struct field names between back quotes.")
+        " Added after seeded defects: size x array-suffix product, zero sizes, the type placed inside hive PARTITIONED BY (...) lists, the column under test named with delimiters (\"x\", `x`, [x]), struct field names between back quotes, angle brackets inside the literals after the type, a trailing comment (with '>' or an apostrophe) on the preceding column's line.")
 ASSUMPTIONS = ["leaves inside <...> are plain type names (no (n) inside angle brackets)", "type strings are compared after removing white space",
                "calibrated conventions: 'x ARRAY' is reported as 'x[]', 'varchar(10)[]' as type 'varchar[]' size 10, (n CHAR) as size 'n CHAR'"]
 MIN_EVENTS = {"statements": 100, "run_return": 100}
@@ -48,7 +48,10 @@ for _b in ("varchar", "decimal", "character varying", "numeric", "text", "int"):
             if _t not in SIZED:
                 SIZED.append(_t)
 OPTIONS = [("", {}), (" NOT NULL", {"nullable": False}), (" DEFAULT 5", {"default": 5}), (" DEFAULT 'x'", {"default": "'x'"}),
-           (" COMMENT 'c'", {"comment": "'c'"}), (" NOT NULL COMMENT 'c c'", {"nullable": False, "comment": "'c c'"})]
+           (" COMMENT 'c'", {"comment": "'c'"}), (" NOT NULL COMMENT 'c c'", {"nullable": False, "comment": "'c c'"}),
+           # angle brackets inside the literals that follow the type: text, not type syntax
+           (" DEFAULT '>'", {"default": "'>'"}), (" NOT NULL DEFAULT 1 COMMENT 'must be > 0'", {"nullable": False, "default": 1, "comment": "'must be > 0'"}),
+           (" COMMENT 'a < b'", {"comment": "'a < b'"}), (" DEFAULT '<x>'", {"default": "'<x>'"})]
 MODES = ["sql", "hql", "bigquery", "spark_sql"]
 
 
@@ -135,9 +138,12 @@ NEIGHBOUR_FORMS = {"plain": "c0 int", "generated": "c0 int AS (c2 + 1)", "genera
 NAME_STYLES = {"plain": "x%d", "dq": '"x%d"', "bt": "`x%d`", "br": "[x%d]", "dq_mixed": '"Xy%d"'}
 
 
-def build(type_text, pos, opt, first="plain", name_style="plain"):
+def build(type_text, pos, opt, first="plain", name_style="plain", comment=None):
     cols = [NEIGHBOUR_FORMS.get(first, "c0 int") if pos else "c0 int", "c1 varchar(5) NOT NULL", "c2 date"]
     cols[pos] = "%s %s%s" % (NAME_STYLES[name_style] % pos, type_text, opt)
+    if comment and pos and "'" not in cols[0]:
+        # a trailing comment on the line of the column BEFORE the type under test (that line holds no literal)
+        return "CREATE TABLE s.t (\n  " + cols[0] + ", " + comment + "\n  " + ",\n  ".join(cols[1:]) + "\n);\n"
     return "CREATE TABLE s.t (\n  " + ",\n  ".join(cols) + "\n);\n"
 
 
@@ -148,7 +154,7 @@ def check_case(ctx, case):
     tt, pos, (opt, oexp), mode = case["type_text"], case["pos"], case["option"], case["mode"]
     first = case.get("first", "plain")
     ns = case.get("name_style", "plain")
-    ddl = build(tt, pos, opt, first, ns)
+    ddl = build(tt, pos, opt, first, ns, case.get("comment_before"))
     # listed defect: an inline CHECK earlier in the column list leaves the lexer's check flag set, later < > are not typed as brackets
     kf_check = "C09:angle-type-after-check-column" if (first == "check" and pos and "<" in tt) else None
     ctx.nontrivial_case(digest(ddl + mode))
@@ -159,10 +165,11 @@ def check_case(ctx, case):
     if r[0] == "exc":
         ctx.violation("exception", dict(case, ddl=ddl), {"exception": r[1], "message": r[2]})
         return
-    if len(r[1]) != 1 or "columns" not in r[1][0]:
+    r_ents = [e for e in r[1] if not (isinstance(e, dict) and set(e) == {"comments"})]      # a comment before the type is reported separately
+    if len(r_ents) != 1 or "columns" not in r_ents[0]:
         ctx.violation("table_lost", dict(case, ddl=ddl), {"result": short(r[1], 300)}, kf=kf_check)
         return
-    cols = r[1][0]["columns"]
+    cols = r_ents[0]["columns"]
     names = [c.get("name") for c in cols]
     want = ["c0", "c1", "c2"]
     want[pos] = NAME_STYLES[ns] % pos
@@ -187,9 +194,10 @@ def check_case(ctx, case):
             ctx.violation("option_after_type_lost", dict(case, ddl=ddl), {"option": k, "observed": c.get(k, "<missing>"), "expected": v})
             break
     # differential: the same table with a plain type
-    b = parse(build("int", pos, opt, first, ns), None, output_mode=mode)
-    if b[0] == "ok" and len(b[1]) == 1:
-        mine, base = r[1][0], b[1][0]
+    b = parse(build("int", pos, opt, first, ns, case.get("comment_before")), None, output_mode=mode)
+    b_ents = [e for e in b[1] if not (isinstance(e, dict) and set(e) == {"comments"})] if b[0] == "ok" else []
+    if b[0] == "ok" and len(b_ents) == 1:
+        mine, base = r_ents[0], b_ents[0]
         a = [dict(col) for col in mine["columns"]]
         bb = [dict(col) for col in base["columns"]]
         for col in (a[pos], bb[pos]):
@@ -267,7 +275,8 @@ def angle_case(t, rng, style, pos, option, mode, gen):
     if rng.random() < 0.2:
         style = dict(style, field_quote="`")          # struct field names between back quotes (Hive / BigQuery spelling)
     text = render_angle(t, rng, style)
-    return {"gen": gen, "name_style": rng.choice(["plain", "plain", "plain", "dq", "bt", "br", "dq_mixed"]), "type_text": text, "exp_type": text, "exp_size": None, "pos": pos, "option": option, "mode": mode, "depth": depth_of(t),
+    return {"gen": gen, "name_style": rng.choice(["plain", "plain", "plain", "dq", "bt", "br", "dq_mixed"]),
+            "comment_before": rng.choice([None, None, None, "-- customer's id", "-- code -> label", "-- don't drop", "/* a > b */"]), "type_text": text, "exp_type": text, "exp_size": None, "pos": pos, "option": option, "mode": mode, "depth": depth_of(t),
             "prefix": rng.choice(PREFIXES), "first": rng.choice(["plain", "plain", "generated", "generated_always", "default_paren", "check"])}
 
 
